@@ -324,6 +324,38 @@ def run(build, ob, tier, replay_dir, prop, sh, VERIF_, REPO):
                 r['status'] = 'holds'
                 r['witness'] = {'reached': wit_ok > 0, 'status': 'sat x%d' % wit_ok, 'time_s': 0,
                                 'note': 'non-vacuity: precondition /\\ path condition checked satisfiable for every path on which a claim is made'}
+        elif ob.kind == 'inventory':
+            import ir2c, argparse
+            r['solver'] = 'static inventory of the regenerated LLVM IR (no solver)'
+            allowed_globals = set(ob.bounds.get('allowed_globals', []))
+            allowed_ext = ob.bounds.get('allowed_externals_re', '')
+            found_g, found_e, units = {}, {}, []
+            for h, defs in ob.bounds['units']:
+                unit = build.unit(h, defs, ob.opt)
+                units.append(h)
+                m = ir2c.parse_module(open(unit['ll']).read())
+                em = ir2c.Emitter(m, argparse.Namespace(redirect=[], ub=False, footprint=True, vcall=[]))
+                for g in em.library_globals():
+                    found_g.setdefault(g, []).append(h)
+                for name, f in m.funcs.items():
+                    if f.blocks is None and not name.startswith('llvm.'):
+                        found_e.setdefault(name, []).append(h)
+            bad_g = sorted(g for g in found_g if g not in allowed_globals)
+            bad_e = sorted(e for e in found_e if not re.fullmatch(allowed_ext, e))
+            r['smt'] = {'units': units, 'library_mutable_globals': sorted(found_g), 'externals': sorted(found_e)}
+            r['queries'] = len(units)
+            if bad_g or bad_e:
+                r['status'] = 'violated'
+                r['failed'] = [{'id': 'inventory', 'line': None, 'desc': 'library-owned mutable global not on the allow-list: %s (%s)' % (g, ','.join(found_g[g]))} for g in bad_g] + \
+                              [{'id': 'inventory', 'line': None, 'desc': 'call to an external function that is not known to be re-entrant: %s (%s)' % (e, ','.join(found_e[e]))} for e in bad_e]
+                os.makedirs(replay_dir, exist_ok=True)
+                rp = os.path.join(replay_dir, '%s-%s.json' % (ob.name, hashlib.sha1(repr((bad_g, bad_e)).encode()).hexdigest()[:10]))
+                json.dump({'property': prop, 'obligation': ob.name, 'unexpected_globals': bad_g, 'unexpected_externals': bad_e}, open(rp, 'w'), indent=1)
+                r['replay_path'] = os.path.relpath(rp, VERIF)
+                r['replay'] = {'reproduced': True, 'note': 'static fact about the IR of the current tree'}
+            else:
+                r['status'] = 'holds'
+                r['witness'] = {'reached': len(found_g) > 0 or len(found_e) > 0, 'status': 'inventory non-empty', 'time_s': 0}
         else:
             raise InternalError('unknown special kind %s' % ob.kind)
     except InternalError as e:
